@@ -11,7 +11,7 @@ R11.5 Node::eval_with_context and Node::eval_with_context_mut are structurally i
 """
 import os
 import tables
-from absint import Interp, SYM, C, ADT, OK, ERR, fmt, is_adt, Budget
+from absint import Interp, SYM, C, ADT, OK, ERR, fmt, is_adt, Budget, has_subterm
 from mirlib import short, path_endswith, callee_matches, cfg_isomorphic
 from rules.witness import compile_witness
 
@@ -66,8 +66,11 @@ def run(ctx):
                     return None
                 ps = Interp(prog, hook=hook, max_depth=1).paths(evm, [selfv, SYM('arguments'), SYM('context')])
                 want = ('app', 'Operator::eval', (selfv, SYM('arguments'), SYM('context')))
-                eff_calls = [e[0] for ret, eff in ps for e in eff if not e[0].startswith('<')]
-                good = len(ps) == 1 and ps[0][0] == want and len(eff_calls) == 1
+                eff_calls = [e for ret, eff in ps for e in eff if not e[0].startswith('<')]
+                fwd = [e for e in eff_calls if e[0].endswith('::eval') and 'Operator' in e[0] and tuple(e[2]) == want[2]]
+                # anything else on the way (a table look-up on `self`, say) must not touch the context
+                touching = [e[0] for e in eff_calls if e not in fwd and any(has_subterm(a, SYM('context')) for a in e[2] if isinstance(a, tuple))]
+                good = len(ps) == 1 and ps[0][0] == want and len(fwd) == 1 and not touching
                 n_fwd += 1
                 ctx.check(good, 'R11.3', 'eval_mut[%s]' % v['name'], 'not-forwarded', 'the mutable dispatcher forwards %s to Operator::eval(self, arguments, &*context) and returns its result unchanged (returns %s)' % (v['name'], [fmt(p[0]) for p in ps]), span=evm.span)
         ctx.floor('R11.3', 'forwarded_variants', n_fwd, 23)
@@ -84,26 +87,20 @@ def run(ctx):
         has = [i for i in impls if path_endswith(i[0], 'ContextWithMutableVariables') and i[1].startswith(c)]
         ctx.check(not has, 'R11.2', c.rstrip('<') + ':!ContextWithMutableVariables', 'impl', '%s does not implement ContextWithMutableVariables (contexts without variable storage cannot be assigned to)' % c.rstrip('<'))
     witness(ctx)
-    # R11.4 who-may-call the mutators
+    # R11.4 who-may-call the mutators (crate-private helpers between the call and Operator::eval_mut are followed to their callers;
+    # that the non-assignment variants never reach them is R11.3: those are forwarded with nothing touching the context)
+    from rules.common import terminal_call_sites
     mutators = {'set_value': 'ContextWithMutableVariables', 'set_function': 'ContextWithMutableFunctions', 'set_builtin_functions_disabled': 'Context'}
-    found = []
-    for f in prog.fns:
-        for b, t in f.calls():
-            c = t['callee']
-            tr = c.get('trait') or ''
-            if c['name'] in mutators and path_endswith(tr, 'context::' + mutators[c['name']]):
-                found.append((short(f.path), c['name'], b, f))
-            elif c.get('local') and c['name'] in ('clear', 'clear_variables', 'clear_functions') and 'HashMapContext' in c['def'] and 'HashMapContext' not in f.path:
-                found.append((short(f.path), c['name'], b, f))
-    callers = sorted({(a, n) for a, n, _, _ in found})
-    ctx.check(callers == [('operator::Operator::eval_mut', 'set_value')], 'R11.4', 'context-mutators', 'who-may-call', 'inside the crate, context state is changed only by Operator::eval_mut calling set_value (callers found: %s)' % callers)
-    if evm is not None:
-        regions, _ = tables.arm_regions(evm, {'l': 1, 'p': ['deref']}, [v['idx'] for v in op['variants']])
-        assign_idx = {v['idx'] for v in op['variants'] if v['name'] in tables.ASSIGN}
-        for a, n, b, f in found:
-            if f is evm:
-                owners = {i for i, bl in regions.items() if b in bl}
-                ctx.check(bool(owners) and owners <= assign_idx, 'R11.4', 'eval_mut:set_value-site', 'arm', 'set_value is called only inside the assignment arms', span=evm.term(b)['span'])
+
+    def is_mutator(c):
+        tr = c.get('trait') or ''
+        if c.get('name') in mutators and path_endswith(tr, 'context::' + mutators[c['name']]):
+            return True
+        return bool(c.get('local') and c.get('name') in ('clear', 'clear_variables', 'clear_functions') and 'HashMapContext' in (c.get('def') or ''))
+    sites = [(a, sp) for a, sp in terminal_call_sites(prog, is_mutator, roots={'operator::Operator::eval_mut'}) if 'HashMapContext' not in a]
+    callers = sorted({a for a, _ in sites})
+    names = sorted({t['callee']['name'] for f in prog.fns if 'HashMapContext' not in f.path for _, t in f.calls() if is_mutator(t['callee'])})
+    ctx.check(callers == ['operator::Operator::eval_mut'] and names == ['set_value'], 'R11.4', 'context-mutators', 'who-may-call', 'inside the crate, context state is changed only by Operator::eval_mut (or a private helper called only from it) calling set_value (callers found: %s, mutators called: %s)' % (callers, names))
     # R11.5 sibling evaluators
     a = prog.fn('tree::Node::<NumericTypes>::eval_with_context')
     m = prog.fn('tree::Node::<NumericTypes>::eval_with_context_mut')
